@@ -849,8 +849,10 @@ def check(ctx):
     for l in lines:
         seen_results |= result_classes(l["inp"], l["got"])
     missing = REQUIRED_RESULT - seen_results
-    if missing:
+    if missing and not ctx.violations:
         raise core.Machinery("vacuity: result classes never produced by the real code: %s" % sorted(missing))
+    if missing:     # disagreements explain the gap and are reported instead
+        ctx.notes.append("result classes never produced by the real code: %s" % sorted(missing))
     ctx.cov["input_classes"] = len(seen_inputs)
     ctx.cov["result_classes"] = sorted(seen_results)
 
